@@ -190,7 +190,8 @@ def _handover(ctx, mod, model):
         ctx.ob("R6", f"{EN}:{q}", f"`{short(r, 60)}` hands over the whole thread-local view (a plain copy: no entry - a DELETE_VAR mask in particular - is filtered out or rewritten on the way to the worker thread)", ok, key=f"{q}|handover-not-whole", where=loc(r))
     # ... and the container all of this ends in is the thread-local layer of the variable store (not, say, the overlay stack)
     store_cls = model.parts["Env"].get("_d")
-    ctx.ob("R6", f"{EN}:Env.get_swapped_values", "what is handed over is the thread-local layer of the variable store (" + (", ".join(f"{c}.{a_}" for c, a_ in sorted(roots)) or "nothing recognised") + ")", len(roots) == 1 and store_cls is not None and all(c == store_cls for c, _ in roots), key="Env.get_swapped_values|handover-not-the-override-layer", where=loc(g))
+    if roots or all(ok for _, _, ok in sites):  # (no container recognised: already reported above as not whole)
+        ctx.ob("R6", f"{EN}:Env.get_swapped_values", "what is handed over is the thread-local layer of the variable store (" + (", ".join(f"{c}.{a_}" for c, a_ in sorted(roots)) or "nothing recognised") + ")", len(roots) == 1 and store_cls is not None and all(c == store_cls for c, _ in roots), key="Env.get_swapped_values|handover-not-the-override-layer", where=loc(g))
     return copied, roots
 
 
@@ -494,7 +495,8 @@ def check(ctx):
     ok = bool(fills) and not [d for d in idefs.get(iparam, []) if d.kind != "param"]
     for n, rt in fills:
         before = [m for m, rt2 in clears if rt2 == rt]
-        ok = ok and rt in roots and bool(before) and icfg.dominated(n, lambda m_: m_ in before)
+        # (roots is empty when the hand-over itself is not recognised as whole: reported there, R6)
+        ok = ok and (not roots or rt in roots) and bool(before) and icfg.dominated(n, lambda m_: m_ in before)
     ctx.ob("R3", f"{EN}:{icls}.{ifn.name}", "installing a view replaces the thread's own layer only: the container the view was copied from is emptied, then filled with the view", ok, key="ied|install-shape", where=loc(ifn))
 
     # ------------------------------------------------------------------ R4
